@@ -133,3 +133,7 @@ FINDINGS += [
 FINDINGS += [
  F("C17", "C17 permutation.Verify: size never checked to be a power of two", "a837c8b", "permutation.Verify (and through it plookup.VerifyLookupTables; same code in plookup.VerifyLookupVector) took size and g from the proof, never checked that size is a power of two and tested g only by g^(size/2) != 1, (g^(size/2))^2 = 1: size = 3 with g = -1, size = 6 with g = -1, size = 12 with g of order 4 passed, and a complete proof derived consistently for that (size, g) was accepted for two vectors that are not permutations of each other (theorem C17c_genCheck_not_primitive_np2; found by the mut=consist ops added for seed C17r3-2)", "C17 permutation bn254 tau=5 n=a t1=1,2,3 t2=a,14,1e t1b=- t2b=- mut=consist i=0 m=7 fm=3 pw2=0 fg=30644e72e131a029b85045b68181585d2833e84879b9709143e1f593f0000000   (Go 1 before the repair; model 0)", "ecc/*/fr/permutation/permutation.go Verify, ecc/*/fr/plookup/vector.go VerifyLookupVector"),
 ]
+
+FINDINGS += [
+ K("C07", 'C07 Encoder.BytesWritten miscounts a failed binary.Write', 'Encoder.BytesWritten is not the number of bytes the writer accepted when a Write issued through binary.Write fails (binary.Write drops the count): a failed write of a uint32 length prefix (encode / encodeRaw of []G1Affine, []G2Affine, [][]fr.Element, [][][]fr.Element; fr/fp.Vector.WriteTo for []fr.Element, fr.Vector, ...) of which the writer accepted 1..3 bytes is not counted at all, a failed write of a fixed-size integer (default case, uint8..uint64) is counted in full although only part of it was accepted. The error itself is reported. Only calls annotated `<accepted>!-a@4:a` (a in 1..3) or `<accepted>!+(len-a)@len:a` (len in 1,2,4,8) match; the other calls of the line must be plain numbers (compared exactly on lines without such a call) Not repaired: the exact count needs every binary.Write of marshal.go (10 packages + template) and the 0-on-error return of Vector.WriteTo (23 packages + template) rewritten; the error itself is always reported.', '^C07 sencn ', '^n=(?:(?:[0-9a-f]+|[0-9a-f]+!-([123])@4:\\1|[0-9a-f]+!\\+(?:1@1:0|2@2:0|1@2:1|4@4:0|3@4:1|2@4:2|1@4:3|8@8:0|7@8:1|6@8:2|5@8:3|4@8:4|3@8:5|2@8:6|1@8:7))(?:,|$))+$', '^n=[0-9a-f,]*$', 'ecc/*/marshal.go encode / encodeRaw (binary.Write of the slice length; default case enc.n += int64(n) on error), field/*/vector.go WriteTo (return 0, err)', 'C07 sencn bn254 0 2 frs:1  (go: n=2!-2@4:2, model: n=2);  C07 sencn bn254 0 3 u64:1  (go: n=3!+5@8:3, model: n=3)'),
+]
